@@ -2,6 +2,8 @@
 """False-alarm battery (not a registered check): behaviour-preserving whole-package rewrites must leave every check silent.
    modes: unparse  - every file re-emitted by ast.unparse (formatting, quotes, comments, parentheses change)
           rename   - every function-local variable (not parameters, not globals/nonlocals) renamed x -> x_r
+          assert2raise - assert C, m -> if not C: raise AssertionError(m);  meth2func - x.sin() -> torch.sin(x);  dimkw - torch.cat(xs, -1) -> torch.cat(xs, dim=-1);
+          cmpflip  - a > b -> b < a
 """
 import ast, os, sys, importlib, copy, builtins
 from .core import Repo, AnalysisError, local_names, DEFAULT_ROOT
@@ -134,6 +136,82 @@ class SwapIndependent(ast.NodeTransformer):
         return node
 
 
+
+class AssertToRaise(ast.NodeTransformer):
+    """assert cond, msg  ->  if not cond: raise AssertionError(msg)   (asserts are stripped under python -O; a common hardening edit)"""
+    def visit_Assert(self, n):
+        exc = ast.Call(ast.Name('AssertionError', ast.Load()), [n.msg] if n.msg is not None else [], [])
+        return ast.copy_location(ast.If(ast.UnaryOp(ast.Not(), n.test), [ast.Raise(exc, None)], []), n)
+
+
+class MethodToFunction(ast.NodeTransformer):
+    """x.sin() -> torch.sin(x) for argument-less element-wise methods (the two spellings are the same operation)"""
+    NAMES = {'sin', 'cos', 'tan', 'exp', 'log', 'sqrt', 'abs', 'atan', 'asin', 'acos', 'square', 'tanh', 'det', 'inverse'}
+
+    def visit_Call(self, n):
+        self.generic_visit(n)
+        if isinstance(n.func, ast.Attribute) and n.func.attr in self.NAMES and not n.args and not n.keywords and not isinstance(n.func.value, ast.Name) or \
+                (isinstance(n.func, ast.Attribute) and n.func.attr in self.NAMES and not n.args and not n.keywords and isinstance(n.func.value, ast.Name)
+                 and n.func.value.id not in ('torch', 'math', 'np', 'self')):
+            return ast.copy_location(ast.Call(ast.Attribute(ast.Name('torch', ast.Load()), n.func.attr, ast.Load()), [n.func.value], []), n)
+        return n
+
+
+
+class DimKeyword(ast.NodeTransformer):
+    """torch.cat([..], -1) -> torch.cat([..], dim=-1)  (and stack / cumsum / cumprod / sum / squeeze / unsqueeze given their axis positionally)"""
+    FUNCS = {'torch.cat': 1, 'torch.stack': 1, 'torch.cumsum': 1, 'torch.cumprod': 1, 'torch.sum': 1, 'torch.squeeze': 1, 'torch.unsqueeze': 1}
+
+    def visit_Call(self, n):
+        self.generic_visit(n)
+        d = dotted_name(n.func)
+        k = self.FUNCS.get(d)
+        if k is not None and len(n.args) == k + 1 and not any(kw.arg == 'dim' for kw in n.keywords):
+            a = n.args[k]
+            if isinstance(a, ast.Constant) or (isinstance(a, ast.UnaryOp) and isinstance(a.operand, ast.Constant)):
+                n.keywords.append(ast.keyword('dim', a))
+                n.args = n.args[:k]
+        return n
+
+
+def dotted_name(e):
+    parts = []
+    while isinstance(e, ast.Attribute):
+        parts.append(e.attr)
+        e = e.value
+    if isinstance(e, ast.Name):
+        parts.append(e.id)
+        return '.'.join(reversed(parts))
+    return None
+
+
+class FlipComparisons(ast.NodeTransformer):
+    """a > b -> b < a (one comparison operator, ordering only)"""
+    FLIP = {ast.Gt: ast.Lt, ast.Lt: ast.Gt, ast.GtE: ast.LtE, ast.LtE: ast.GtE}
+
+    def visit_Compare(self, n):
+        self.generic_visit(n)
+        if len(n.ops) == 1 and type(n.ops[0]) in self.FLIP:
+            return ast.copy_location(ast.Compare(n.comparators[0], [self.FLIP[type(n.ops[0])]()], [n.left]), n)
+        return n
+
+
+
+class FlipIfElse(ast.NodeTransformer):
+    """if c: A else: B  ->  if not c: B else: A   (only plain if/else, no elif chains; ternaries likewise)"""
+    def visit_If(self, n):
+        self.generic_visit(n)
+        if n.orelse and not (len(n.orelse) == 1 and isinstance(n.orelse[0], ast.If)):
+            t = n.test.operand if isinstance(n.test, ast.UnaryOp) and isinstance(n.test.op, ast.Not) else ast.UnaryOp(ast.Not(), n.test)
+            return ast.copy_location(ast.If(t, n.orelse, n.body), n)
+        return n
+
+    def visit_IfExp(self, n):
+        self.generic_visit(n)
+        t = n.test.operand if isinstance(n.test, ast.UnaryOp) and isinstance(n.test.op, ast.Not) else ast.UnaryOp(ast.Not(), n.test)
+        return ast.copy_location(ast.IfExp(t, n.orelse, n.body), n)
+
+
 def overlay(mode):
     ov = {}
     for dp, dn, fn in os.walk(os.path.join(ROOT, 'pypose')):
@@ -164,6 +242,21 @@ def overlay(mode):
                 elif mode == 'split':
                     tree = SplitTuples().visit(tree)
                     ast.fix_missing_locations(tree)
+                elif mode == 'dimkw':
+                    tree = DimKeyword().visit(tree)
+                    ast.fix_missing_locations(tree)
+                elif mode == 'cmpflip':
+                    tree = FlipComparisons().visit(tree)
+                    ast.fix_missing_locations(tree)
+                elif mode == 'elseflip':
+                    tree = FlipIfElse().visit(tree)
+                    ast.fix_missing_locations(tree)
+                elif mode == 'assert2raise':
+                    tree = AssertToRaise().visit(tree)
+                    ast.fix_missing_locations(tree)
+                elif mode == 'meth2func':
+                    tree = MethodToFunction().visit(tree)
+                    ast.fix_missing_locations(tree)
                 ov[rel] = ast.unparse(tree)
     return ov
 
@@ -171,7 +264,7 @@ def overlay(mode):
 _OV_CACHE = {}
 
 
-def run_for(prop, modes=('unparse', 'rename', 'rettemp', 'split', 'swap'), verbose=True):
+def run_for(prop, modes=('unparse', 'rename', 'rettemp', 'split', 'swap', 'assert2raise', 'meth2func', 'dimkw', 'cmpflip', 'elseflip'), verbose=True):
     """battery restricted to one property's rules -> list of false alarms"""
     mod = importlib.import_module('sa.rules.' + prop.lower())
     out = []
@@ -196,7 +289,7 @@ def run_for(prop, modes=('unparse', 'rename', 'rettemp', 'split', 'swap'), verbo
 
 
 def main():
-    modes = sys.argv[1:] or ['unparse', 'rename', 'rettemp', 'split', 'swap']
+    modes = sys.argv[1:] or ['unparse', 'rename', 'rettemp', 'split', 'swap', 'assert2raise', 'meth2func', 'dimkw', 'cmpflip', 'elseflip']
     bad = 0
     for mode in modes:
         ov = overlay(mode)
